@@ -213,6 +213,9 @@ func Observe(label string, x float64, idx ...int) { Observed[nameOf(label, idx)]
 
 func Symbolic() bool { return false }
 
+// Reseeds is the number of times the interpreted code re-seeded a global random source (0 natively).
+func Reseeds() int { return 0 }
+
 // Steps is the number of SSA instructions the executor has interpreted so far on this path
 // (0 natively): a deterministic work measure for "polynomial time" obligations.
 func Steps() int { return 0 }
